@@ -99,8 +99,15 @@ def k10_applies(sign, mag, prefix, unit, system):
     return False
 
 
+def to_float(q):
+    try:
+        return float(q)
+    except OverflowError:           # rounds to 2**1024
+        return math.inf if q > 0 else -math.inf
+
+
 def ulp_close(got, exact, ulps=4):
-    if abs(exact) >= DBL_MAX:
+    if abs(exact) >= DBL_MAX or math.isinf(to_float(exact)):
         return got in (float('inf'), float('-inf')) or abs(Fraction(got)) >= DBL_MAX / 2
     if got != got or got in (float('inf'), float('-inf')):
         return False
@@ -144,7 +151,11 @@ def _evaluate_plain(ctx, case):
         exact = exact_value(sign, mag, prefix, unit, system)
         k10 = k10_applies(sign, mag, prefix, unit, system)
         if exc is not None:
-            if rint and k10 and abs(exact) >= DBL_MAX / 4 and isinstance(exc, OverflowError):
+            edge = DBL_MAX * (1 - Fraction(1, 2 ** 50))
+            mag_q = abs(Fraction(mag if not mag.startswith('.') else '0' + mag))
+            # K10 as listed: "magnitudes beyond the double range give OverflowError" - the magnitude literal or the
+            # quantity itself does not fit a double (not: an intermediate product that the implementation chose)
+            if rint and k10 and (abs(exact) >= edge or mag_q >= edge) and isinstance(exc, OverflowError):
                 ctx.fail('int-result', case, {'text': text, 'exc': exc}, known='K10')
                 return
             ctx.fail('admissible-text-must-not-raise', case, {'text': text, 'exc': exc})
@@ -171,13 +182,17 @@ def _evaluate_plain(ctx, case):
                 ctx.clause('int-result-exact')
                 if got != want:
                     ctx.fail('int-result', case, {'text': text, 'got': got, 'want': want})
+        elif abs(Fraction(mag if not mag.startswith('.') else '0' + mag)) >= DBL_MAX * (1 - Fraction(1, 2 ** 50)):
+            # the number in the text is itself beyond the double range (only reachable with bit units, where the quantity
+            # is an eighth of it): DONT-CARE zone, see DESIGN section 8
+            ctx.clause('magnitude-beyond-double-range-dontcare')
         else:
             ctx.clause('float-result')
             if isinstance(got, bool) or not isinstance(got, (int, float)):
                 ctx.fail('float-result-type', case, {'text': text, 'got': got})
             elif not ulp_close(float(got), exact):
                 ctx.fail('float-result', case,
-                         {'text': text, 'got': got, 'want': float(exact) if abs(exact) < DBL_MAX else 'huge'})
+                         {'text': text, 'got': got, 'want': to_float(exact) if abs(exact) < DBL_MAX else 'huge'})
     elif kind == 'qemu':
         from oslo_utils.imageutils import qemu
         field, spelling, want = case['field'], case['spelling'], case['want']
@@ -331,6 +346,21 @@ def run(ctx):
         emit(dict(kind='stb', sign=rng.choice(SIGNS), mag=mag, mag_ok=True,
                   prefix=rng.choice(ALL_PREFIXES), unit=rng.choice(UNITS), system=rng.choice(SYSTEMS),
                   return_int=rng.random() < 0.5))
+    # magnitudes with hundreds of digits: the quantity lies within a few powers of two of the largest double, on
+    # either side - where an intermediate product overflows although the result (bit units are divided by 8) does not
+    rh = ctx.rng('huge')
+    for i in range(ctx.pick(1500, 60000)):
+        prefix, unit, system = rh.choice(ALL_PREFIXES), rh.choice(UNITS), rh.choice(SYSTEMS)
+        if not admissible(prefix, system):
+            continue
+        one = exact_value('', '1', prefix, unit, system)          # the quantity of "1<prefix><unit>"
+        target = DBL_MAX / rh.choice([1, 2, 3, 5, 7, 9, 12, 15, 17, 40]) * rh.choice([1, 1, 1, 2])
+        digits = str(int(target / one))
+        if len(digits) > 4000:
+            continue
+        mag = digits[:1] + ''.join(rh.choice('0123456789') for _ in digits[1:]) if rh.random() < 0.5 else digits
+        emit(dict(kind='stb', sign=rh.choice(['', '', '-']), mag=mag, mag_ok=True, prefix=prefix, unit=unit,
+                  system=system, return_int=rh.random() < 0.5))
     for c in qemu_cases(ctx.rng('qemu'), ctx.pick(3000, 600000)):
         emit(c)
     rj = ctx.rng('qemu-json')
